@@ -212,8 +212,22 @@ func (c *Compiler) typeToCode(typ *runtime.Type) (Code, error) {
 		if isPtr && typ.Implements(marshalTextType) {
 			typ = orgType
 		}
+		if isPtr && isPtrChainToMap(typ) {
+			// a map value is itself a pointer: count every level of the chain, as for *map above
+			return c.ptrCode(orgType)
+		}
 		return c.typeToCodeWithPtr(typ, isPtr)
 	}
+}
+
+func isPtrChainToMap(typ *runtime.Type) bool {
+	if typ.Kind() != reflect.Ptr {
+		return false
+	}
+	for typ.Kind() == reflect.Ptr {
+		typ = typ.Elem()
+	}
+	return typ.Kind() == reflect.Map
 }
 
 func (c *Compiler) typeToCodeWithPtr(typ *runtime.Type, isPtr bool) (Code, error) {
